@@ -354,7 +354,9 @@ fn gen_scenario(scn: usize, seed: u64, max_ops: usize) -> Scenario {
   let storage = if scn % 3 == 2 { "fs" } else { "memory" };
   let mut ver = 0u64;
   let mut prefix = Vec::new();
-  let batches = [0usize, 1, 2, 2][r.gen_range(0..4)];
+  // every fourth scenario is a compaction scenario: two committed segments and a compact call
+  let compaction = scn % 4 == 1;
+  let batches = if compaction { 2 } else { [0usize, 1, 2, 2][r.gen_range(0..4)] };
   if batches > 0 {
     prefix.push(Op::NewWriter);
     for b in 0..batches {
@@ -447,6 +449,10 @@ fn gen_scenario(scn: usize, seed: u64, max_ops: usize) -> Scenario {
       }
     };
     ops.push(op);
+  }
+  if compaction && !ops.iter().any(|o| matches!(o, Op::Compact)) {
+    let at = r.gen_range(1..=ops.len());
+    ops.insert(at, Op::Compact);
   }
   Scenario {
     scn,
@@ -927,6 +933,8 @@ pub fn main(args: &Args) -> Result<()> {
   let max_ops = args.usize("ops", 6);
   let max_calls = args.usize("max-calls", 400);
   let n_pairs_scn = args.usize("pairs", 0);
+  let n_pairs_fs = args.usize("pairs-fs", 0);
+  let pair_min_calls = args.usize("pair-min-calls", 40);
   let pair_cap = args.usize("pair-cap", 4000);
   let dedup = !args.flag("no-dedup");
   // a panic of the code under test is data; keep stderr quiet
@@ -989,14 +997,31 @@ pub fn main(args: &Args) -> Result<()> {
       scenarios.push(sc);
     }
   }
+  // scenarios with too many storage calls are skipped (counted), not truncated
+  let mut counts: Vec<usize> = Vec::new();
+  for sc in scenarios.iter() {
+    counts.push(execute(sc, &[], false)?.n_calls);
+  }
+  // ordered pairs are enumerated on the smallest scenarios that still contain real work
+  let mut pair_set: std::collections::BTreeSet<usize> = std::collections::BTreeSet::new();
+  for (kind, want) in [("memory", n_pairs_scn), ("fs", n_pairs_fs)] {
+    let mut cand: Vec<(usize, usize)> = scenarios
+      .iter()
+      .enumerate()
+      .filter(|(k, sc)| sc.storage == kind && counts[*k] >= pair_min_calls && counts[*k] <= max_calls)
+      .map(|(k, _)| (counts[k], k))
+      .collect();
+    cand.sort();
+    for (_, k) in cand.into_iter().take(want) {
+      pair_set.insert(k);
+    }
+  }
   for (pos, sc) in scenarios.iter().enumerate() {
-    // scenarios with too many storage calls are skipped (counted), not truncated
-    let probe = execute(sc, &[], false)?;
-    if probe.n_calls > max_calls {
-      scn_info.push(json!({"scn": sc.scn, "storage_calls": probe.n_calls, "skipped": true}));
+    if counts[pos] > max_calls {
+      scn_info.push(json!({"scn": sc.scn, "storage_calls": counts[pos], "skipped": true}));
       continue;
     }
-    let info = run_scenario(sc, &mut tr, &mut tot, &mut run_no, pos < n_pairs_scn, pair_cap, seed, dedup, &mut samples)?;
+    let info = run_scenario(sc, &mut tr, &mut tot, &mut run_no, pair_set.contains(&pos), pair_cap, seed, dedup, &mut samples)?;
     scn_info.push(info);
   }
   let lines = tr.finish();
